@@ -79,8 +79,8 @@ class C12(Scenario):
         "quick": [("uniform", 4), ("digit-boundary", 4), ("multi-mesh", 3), ("salt", 4), ("warm", 2), ("shared-measure", 3), ("faulty-noise", 2), ("demo", 1), ("probe", 4), ("restart", 3), ("low-stack", 2), ("sweep", 2)],
         "thorough": [("uniform", 4), ("digit-boundary", 4), ("multi-mesh", 3), ("salt", 4), ("warm", 2), ("shared-measure", 3), ("faulty-noise", 3), ("demo", 1), ("deep", 2), ("probe", 4), ("restart", 3), ("low-stack", 2), ("sweep", 3)],
     }
-    runs = {"quick": 4000, "thorough": 80000}
-    wall = {"quick": 75, "thorough": 1300}
+    runs = {"quick": 6000, "thorough": 80000}
+    wall = {"quick": 100, "thorough": 1300}
     rule = (
         "one run = one generated UFL build program (env, terminals, 1-3 forms, 0-4 derived forms via public "
         "algorithms) executed on a pristine reference process and 1-3 perturbed simulated processes (hash salt, "
